@@ -8,6 +8,7 @@
 EXTENDS Parse, Json
 CONSTANTS MaxLines,      \* header lines of the first message (besides Host)
           GrayRLLines,   \* ... when the request line itself is a gray variant
+          MethodHVs,     \* header-line variants used after a MethodRL request line
           TailSet, M2Set
 VARIABLES rl, hs, tail, m2
 gvars == <<rl, hs, tail, m2>>
@@ -18,11 +19,13 @@ Msg2(k) == CASE k = 1 -> [rl |-> "get11", hs |-> <<>>]
              [] k = 3 -> [rl |-> "post11", hs |-> <<"WSCL">>]
              [] k = 4 -> [rl |-> "post11", hs |-> <<"TEc">>]
              [] k = 5 -> [rl |-> "post11", hs |-> <<"CLa", "CLb">>]
+             [] k = 6 -> [rl |-> "head11", hs |-> <<"CLa">>]
+             [] k = 7 -> [rl |-> "delete11", hs |-> <<"TEc">>]
 Tail2(p) == IF p.kind = "cl" THEN (IF p.n = A THEN "a" ELSE "b") ELSE IF p.kind = "chunked" THEN "ch" ELSE "none"
 
 GInit == rl \in RLs /\ hs = <<>> /\ tail \in TailSet /\ m2 \in M2Set
 GNext == /\ Len(hs) < (IF rl \in GrayRL THEN GrayRLLines ELSE MaxLines)
-         /\ \E h \in HVs : hs' = Append(hs, h)
+         /\ \E h \in (IF rl \in MethodRL THEN MethodHVs ELSE HVs) : hs' = Append(hs, h)
          /\ UNCHANGED <<rl, tail, m2>>
 
 Conform == Allowed(P(rl, hs), M(rl, hs)) /\ Allowed(P(Msg2(m2).rl, Msg2(m2).hs), M(Msg2(m2).rl, Msg2(m2).hs))
